@@ -354,7 +354,11 @@ or a re-taken guard changes the generated paths/edges and breaks one of these):
   is held; `forget_channel` takes the slot under the map;
 * `setup_channel` holds the tracker across its single channel-map section (lookup of the stub to
   insertion of the ready channel, since 07197c0);
-* a channel request holds its slot in one section, with the node ledger nested inside it. -/
+* a channel request holds its slot in one section, with the node ledger nested inside it;
+* `new_channel`, `forget_channel` and `setup_channel` write the channel record to the store while the
+  channel map is held (the order of the stored records of one channel id is the order of the map
+  sections);
+* `get_heartbeat` prunes, computes the balance and reads tip and height in ONE tracker section. -/
 theorem C20_section_extents :
     sectionsOf .new_channel .channels = 1 ∧ sectionsOf .forget_channel .channels = 1 ∧
     (Cls.channels, Cls.nodeState) ∈ edges .new_channel ∧
@@ -362,7 +366,10 @@ theorem C20_section_extents :
     (Cls.channels, Cls.slot) ∈ edges .forget_channel ∧
     (Cls.tracker, Cls.channels) ∈ edges .setup_channel ∧
     sectionsOf .setup_channel .tracker = 1 ∧ sectionsOf .setup_channel .channels = 1 ∧
-    sectionsOf .channel_request .slot = 1 ∧ (Cls.slot, Cls.nodeState) ∈ edges .channel_request := by
+    sectionsOf .channel_request .slot = 1 ∧ (Cls.slot, Cls.nodeState) ∈ edges .channel_request ∧
+    (Cls.channels, Cls.store) ∈ edges .new_channel ∧ (Cls.channels, Cls.store) ∈ edges .forget_channel ∧
+    (Cls.channels, Cls.store) ∈ edges .setup_channel ∧
+    sectionsOf .get_heartbeat .tracker = 1 ∧ (Cls.tracker, Cls.channels) ∈ edges .get_heartbeat := by
   decide +kernel
 
 /-- non-vacuity: a commitment-update-like request (slot 0, then the node ledger 9, both held to the
